@@ -81,7 +81,7 @@ RULE = (f"fault enumeration: runs 0..{NENUM - 1} enumerate every stall point - a
 PROBES = ["stall_in_handshake", "stall_in_request_line", "stall_in_titan_content",
           "complete_request_no_timeout", "late_data_at_boundary", "slow_handler_5T",
           "slow_middleware", "dribble", "stall_after_large_declared_size",
-          "request_as_several_records_in_one_flight", "damaged_stream_then_silence", "ipv6_peer", "refused_upload_with_content_outstanding", "disconnect_near_deadline", "timeout_40_observed", "via_start_server"]
+          "request_as_several_records_in_one_flight", "damaged_stream_then_silence", "ipv6_peer", "chain_undecided_at_deadline_body_incomplete", "refused_upload_with_content_outstanding", "disconnect_near_deadline", "timeout_40_observed", "via_start_server"]
 COMPONENTS = {
     "real": ["nauyaca.server.protocol (request timer)", "nauyaca.server.tls_protocol (handshake "
              "phase)", "asyncio sslproto handshake/shutdown timers", "OpenSSL"],
@@ -142,7 +142,7 @@ def run_one(ch):
         s = ch.choose("shape", len(SHAPES))
         name, stream = SHAPES[s]
         sc["ipv6"] = ch.chance("ipv6", 0.3)
-        r = ch.choose("scen", 9, [4, 3, 2, 2, 2, 2, 2, 2, 2])
+        r = ch.choose("scen", 10, [4, 3, 2, 2, 2, 2, 2, 2, 2, 2])
         sc["sent"] = stream
         if r == 0:      # late data around the deadline
             k = ch.choose("latek", len(stream))
@@ -188,6 +188,18 @@ def run_one(ch):
             sc["sent"] = stream
             sc["big_declared"] = True
             sc["case"] = f"big-declared-stall/{size}/have={have}"
+        elif r == 9:
+            # a chain that is still deciding when the request timer is due, while the upload's
+            # body is incomplete and the peer silent: the timer answers, once and on time
+            s = ch.pick("slowchain.shape", [2, 3, 5])
+            name, stream = SHAPES[s]
+            line_end = stream.find(b"\r\n") + 2
+            k = line_end + ch.choose("slowchain.k", len(stream) - line_end)
+            sc["mwdelay"] = ch.pick("slowchain.d", [T + 1.0, T + 5.0, 2 * T])
+            sc["script"] = [("send", stream[:k]), ("stall",)]
+            sc["sent"] = stream[:k]
+            sc["slowchain"] = True
+            sc["case"] = f"chain-undecided-at-deadline/{name}/k={k}/{sc['mwdelay']}"
         elif r == 8 and mode != "plain":
             # a damaged stream, then silence: one byte inverted in transit somewhere in the
             # client's handshake flights or its first application record - or a client
@@ -478,6 +490,8 @@ def run_one(ch):
         res.stats["dribble"] += 1
     if sc.get("ipv6"):
         res.stats["ipv6_peer"] += 1
+    if sc.get("slowchain"):
+        res.stats["chain_undecided_at_deadline_body_incomplete"] += 1
     if sc.get("big_declared"):
         res.stats["stall_after_large_declared_size"] += 1
     if sc.get("records"):
